@@ -46,81 +46,85 @@ def run(ctx):
     man = {"alg": "es256", "private_key": "/repo/cli/sample/es256_private.key", "sign_cert": "/repo/cli/sample/es256_certs.pem",
            "claim_generator_info": [{"name": "vh", "version": "1"}], "title": "c32",
            "assertions": [{"label": "org.vh.test", "data": {"k": 1}}]}
-    n = 0
-    drift = 0
-    for fmt in fmts:
+    from concurrent.futures import ThreadPoolExecutor
+    jobs = [(fmt, v) for fmt in fmts for v in vecs]
+
+    def one(job_i):
+        idx, (fmt, v) = job_i
+        res = {"violations": [], "drift": 0, "sample": None}
         src = os.path.join("/repo/sdk/tests/fixtures", FORMATS[fmt])
-        # a signed copy used as input for report mode
-        for v in vecs:
-            n += 1
-            d = os.path.join(work, "case%d" % n)
-            os.makedirs(d)
-            ext = fmt
-            inp = os.path.join(d, "in." + ext)
-            shutil.copy(src, inp)
-            mpath = os.path.join(d, "manifest.json")
-            json.dump(man, open(mpath, "w"))
-            if v["mode"] == "sign":
-                outp = inp if v["sameAsInput"] else os.path.join(d, "out", "o." + ext)
-                side = os.path.splitext(outp)[0] + ".c2pa"
-                if not v["sameAsInput"]:
-                    os.makedirs(os.path.join(d, "out"))
-                    if v["output"] == "file":
-                        shutil.copy(src, outp)
-                    elif v["output"] == "dir":
-                        os.makedirs(outp); open(os.path.join(outp, "keep.txt"), "w").write("keep")
-                if v["sidecar"] == "file":
-                    open(side, "w").write("old sidecar")
-                elif v["sidecar"] == "dir":
-                    os.makedirs(side); open(os.path.join(side, "keep.txt"), "w").write("keep")
-                cmd = [CLI, inp, "-m", mpath, "-o", outp] + (["-f"] if v["force"] else []) + (["--sidecar"] if v["sidecarFlag"] else []) + (["-r", "https://manifests.example/m.c2pa"] if v["remote"] else [])
-            else:
-                # report-folder mode needs an asset with a manifest: sign one first (outside the snapshot comparison)
-                signed = os.path.join(d, "signed." + ext)
-                p0 = subprocess.run([CLI, inp, "-m", mpath, "-o", signed], stdout=subprocess.PIPE, stderr=subprocess.PIPE, text=True, timeout=120)
-                if p0.returncode != 0:
-                    ctx.violation("sign-failed:%s" % fmt, "plain signing failed: %s" % p0.stderr[-300:], {"format": fmt})
-                    continue
-                outp = os.path.join(d, "report")
-                side = outp + ".c2pa"
+        d = os.path.join(work, "case%d" % idx)
+        os.makedirs(d)
+        ext = fmt
+        inp = os.path.join(d, "in." + ext)
+        shutil.copy(src, inp)
+        mpath = os.path.join(d, "manifest.json")
+        json.dump(man, open(mpath, "w"))
+        if v["mode"] == "sign":
+            outp = inp if v["sameAsInput"] else os.path.join(d, "out", "o." + ext)
+            side = os.path.splitext(outp)[0] + ".c2pa"
+            if not v["sameAsInput"]:
+                os.makedirs(os.path.join(d, "out"))
                 if v["output"] == "file":
-                    open(outp, "w").write("old file")
+                    shutil.copy(src, outp)
                 elif v["output"] == "dir":
                     os.makedirs(outp); open(os.path.join(outp, "keep.txt"), "w").write("keep")
-                cmd = [CLI, signed, "-o", outp] + (["-f"] if v["force"] else [])
-            before = snap(d)
-            p = subprocess.run(cmd, stdout=subprocess.PIPE, stderr=subprocess.PIPE, text=True, timeout=120)
-            after = snap(d)
-            rel = lambda q: os.path.relpath(q, d)
-            changed = sorted(k for k in before if after.get(k) != before[k])
-            case = {"format": fmt, "vector": v, "cmd": [rel(c) if c.startswith(d) else c for c in cmd], "exit": p.returncode,
-                    "stderr": p.stderr[-300:], "changed_or_removed": changed}
-            crashed = p.returncode < 0 or "panicked at" in p.stderr
-            if crashed:
-                ctx.violation("crash", "c2patool crashed", case)
-            # property: without force nothing pre-existing is modified, replaced or deleted
-            pre_changed = [k for k in changed if not k.startswith("manifest.json")]
-            if not v["force"] and pre_changed:
-                which = "sidecar" if any(k.endswith(".c2pa") or ".c2pa/" in k for k in pre_changed) else ("input" if rel(inp) in pre_changed else "output")
-                ctx.violation("clobber:%s:%s" % (v["mode"], which), "without -f c2patool changed pre-existing %s" % pre_changed, case)
-            # property: a file reported as signed validates
-            if v["mode"] == "sign" and p.returncode == 0:
-                if v["sidecarFlag"]:
-                    rr = vh(["read-file", outp, side], check=False)
-                else:
-                    rr = vh(["read-file", outp], check=False)
-                try:
-                    st = json.loads(rr.stdout.strip().splitlines()[-1])
-                except Exception:
-                    st = {"state": "unreadable"}
-                case["read"] = st
-                if st.get("state") not in ("Valid", "Trusted"):
-                    ctx.violation("signed-not-valid:%s" % ("sidecar" if v["sidecarFlag"] else "embedded"), "c2patool exited 0 but the output reads %s" % st, case)
-            if (p.returncode == 0) != (v["exit"] == "ok"):
-                drift += 1
-            if n % 37 == 1:
-                ctx.sample(case, cap=4)
-            shutil.rmtree(d, ignore_errors=True)
+            if v["sidecar"] == "file":
+                open(side, "w").write("old sidecar")
+            elif v["sidecar"] == "dir":
+                os.makedirs(side); open(os.path.join(side, "keep.txt"), "w").write("keep")
+            cmd = [CLI, inp, "-m", mpath, "-o", outp] + (["-f"] if v["force"] else []) + (["--sidecar"] if v["sidecarFlag"] else []) + (["-r", "https://manifests.example/m.c2pa"] if v["remote"] else [])
+        else:
+            signed = os.path.join(d, "signed." + ext)
+            p0 = subprocess.run([CLI, inp, "-m", mpath, "-o", signed], stdout=subprocess.PIPE, stderr=subprocess.PIPE, text=True, timeout=300)
+            if p0.returncode != 0:
+                res["violations"].append(("sign-failed:%s" % fmt, "plain signing failed: %s" % p0.stderr[-300:], {"format": fmt}))
+                return res
+            outp = os.path.join(d, "report")
+            side = outp + ".c2pa"
+            if v["output"] == "file":
+                open(outp, "w").write("old file")
+            elif v["output"] == "dir":
+                os.makedirs(outp); open(os.path.join(outp, "keep.txt"), "w").write("keep")
+            cmd = [CLI, signed, "-o", outp] + (["-f"] if v["force"] else [])
+        before = snap(d)
+        p = subprocess.run(cmd, stdout=subprocess.PIPE, stderr=subprocess.PIPE, text=True, timeout=300)
+        after = snap(d)
+        rel = lambda q: os.path.relpath(q, d)
+        changed = sorted(k for k in before if after.get(k) != before[k])
+        case = {"format": fmt, "vector": v, "cmd": [rel(c) if c.startswith(d) else c for c in cmd], "exit": p.returncode,
+                "stderr": p.stderr[-300:], "changed_or_removed": changed}
+        if p.returncode < 0 or "panicked at" in p.stderr:
+            res["violations"].append(("crash", "c2patool crashed", case))
+        pre_changed = [k for k in changed if not k.startswith("manifest.json")]
+        if not v["force"] and pre_changed:
+            which = "sidecar" if any(k.endswith(".c2pa") or ".c2pa/" in k for k in pre_changed) else ("input" if rel(inp) in pre_changed else "output")
+            res["violations"].append(("clobber:%s:%s" % (v["mode"], which), "without -f c2patool changed pre-existing %s" % pre_changed, case))
+        if v["mode"] == "sign" and p.returncode == 0:
+            rr = vh(["read-file", outp, side], check=False) if v["sidecarFlag"] else vh(["read-file", outp], check=False)
+            try:
+                st = json.loads(rr.stdout.strip().splitlines()[-1])
+            except Exception:
+                st = {"state": "unreadable"}
+            case["read"] = st
+            if st.get("state") not in ("Valid", "Trusted"):
+                res["violations"].append(("signed-not-valid:%s" % ("sidecar" if v["sidecarFlag"] else "embedded"), "c2patool exited 0 but the output reads %s" % st, case))
+        if (p.returncode == 0) != (v["exit"] == "ok"):
+            res["drift"] = 1
+        if idx % 37 == 1:
+            res["sample"] = case
+        shutil.rmtree(d, ignore_errors=True)
+        return res
+
+    drift = 0
+    n = len(jobs)
+    with ThreadPoolExecutor(max_workers=int(os.environ.get("VERIF_JOBS", "8"))) as ex:
+        for res in ex.map(one, enumerate(jobs)):
+            for key, what, case in res["violations"]:
+                ctx.violation(key, what, case)
+            drift += res["drift"]
+            if res["sample"]:
+                ctx.sample(res["sample"], cap=4)
     if drift:
         ctx.drift_note("CliFs", "%d invocations: exit status differs from the mirror" % drift)
     ctx.cov["traces_validated_against_impl"] += n
